@@ -107,6 +107,17 @@ theorem helpers_shape (lines : GT) (w : Expr) :
         .ninf .ninf .pinf (.fin (.div w (.nat 2)))) (.nat 120)) := by
   exact ⟨rfl, rfl⟩
 
+/-- giving the constructor the pass's `filling_ratio` instead of the width (two rolls: the pass's usable width is the
+    groove's) resolves to the same width -/
+theorem filling_round_trip (ρ σ : String → ℝ) (huw : ρ "roll.groove.usable_width" ≠ 0)
+    (h1 : ρ "roll_pass.usable_width" = two_usable_width_e.eval ρ)
+    (h2 : σ "groove.usable_width" = ρ "roll.groove.usable_width") (h3 : σ "filling" = out_filling_ratio_e.eval ρ) :
+    from_groove_fg_width.eval σ = ρ "width" := by
+  simp only [two_usable_width_e, Expr.eval] at h1
+  simp only [from_groove_fg_width, out_filling_ratio_e, Expr.eval, h1] at h3 ⊢
+  rw [h2, h3]
+  field_simp
+
 /-! ## B. the over-width tests -/
 
 /-- `if cs.width * 1.01 < self.width: raise ValueError` -/
@@ -353,6 +364,217 @@ theorem two_roll_degenerate_rejected (E : ℝ) (h : Spans (upper ρ (c .rollCont
     simp only [Prog.run, checks_shape.2.1, runChecks, nofire, Cond.eval, e, hv']
     simp
 
+/-! ### the constructor on vertex lists: same outcome as the pass, errors included -/
+
+/-- `poly` of `from_groove`: `Polygon(np.concatenate([upper_contour_line.coords, lower_contour_line.coords]))` -/
+def fgPoly : GT := .polygon (two_lines.mapSrc toGroove)
+
+/-- `if not (filling > 0 and width > 0 and height > 0 and gap >= 0): raise ValueError` with `filling`, `height` resolved -/
+def fgRange : Cond :=
+  .not (.and (.and (.and (.lt (.nat 0) (.div (.var "width") (.var "groove.usable_width"))) (.lt (.nat 0) (.var "width")))
+    (.lt (.nat 0) (.add (.var "gap") (.mul (.nat 2) (.var "groove.depth"))))) (.le (.nat 0) (.var "gap")))
+
+theorem constructor_shape :
+    from_groove_wg.meas = [("poly.bounds[0]", fgPoly, .bound 0), ("poly.bounds[2]", fgPoly, .bound 2)] ∧
+    from_groove_wg.checks = [⟨fgRange, "ValueError"⟩, ⟨fgOver, "ValueError"⟩,
+      ⟨.invalid (.clipRect fgPoly (.fin (.div (.neg (.var "width")) (.nat 2))) .ninf (.fin (.div (.var "width") (.nat 2))) .pinf),
+       "ValueError"⟩] ∧
+    from_groove_wg.result =
+      .refine (.clipRect fgPoly (.fin (.div (.neg (.var "width")) (.nat 2))) .ninf (.fin (.div (.var "width") (.nat 2))) .pinf) := by
+  exact ⟨rfl, rfl, rfl⟩
+
+theorem fgRange_ok (μ : String → ℝ) (hw0 : 0 < μ "width") (huw : 0 < μ "groove.usable_width")
+    (hh : 0 < μ "gap" + 2 * μ "groove.depth") (hg : 0 ≤ μ "gap") : fgRange.eval (VL c valid) ρ μ = false := by
+  have : 0 < μ "width" / μ "groove.usable_width" := div_pos hw0 huw
+  simp [fgRange, Cond.eval, Expr.eval, this, hw0, hh, hg]
+
+theorem fgPoly_eval (hc : c .rollContour = c .grooveContour) :
+    fgPoly.eval (VL c valid) ρ = ring (upper ρ (c .rollContour)) := by
+  have h := eval_toGroove (VL c valid) ρ hc two_lines
+  simp only [fgPoly, GT.eval, h, two_lines_eval, ring]
+  rfl
+
+/-- **the two code paths agree on vertex lists, errors included**: for the same contour, gap and (admissible) width the
+    constructor raises exactly when the pass raises, and otherwise both return the same vertex list -/
+theorem constructor_agrees_with_pass (hc : c .rollContour = c .grooveContour) (E : ℝ)
+    (h : Spans (upper ρ (c .rollContour)) E) (hw0 : 0 < ρ "width") (huw : 0 < ρ "groove.usable_width")
+    (hh : 0 < ρ "gap" + 2 * ρ "groove.depth") (hg : 0 ≤ ρ "gap") :
+    from_groove_wg.run (VL c valid) ρ = two_cross_section.run (VL c valid) ρ := by
+  have hE := h.pos
+  have hb := (ring_xrange _ E h).bounds
+  have hp := fgPoly_eval c valid ρ hc
+  -- the measurements of the constructor
+  have m0 : measEnv (VL c valid) ρ from_groove_wg.meas "poly.bounds[0]" = -E / 2 := by
+    rw [constructor_shape.1]; simp only [measEnv, if_true, hp]; exact hb.1
+  have m2 : measEnv (VL c valid) ρ from_groove_wg.meas "poly.bounds[2]" = E / 2 := by
+    rw [constructor_shape.1]; simp only [measEnv, hp, if_true]; exact hb.2
+  have mv : ∀ n, n ≠ "poly.bounds[0]" → n ≠ "poly.bounds[2]" → measEnv (VL c valid) ρ from_groove_wg.meas n = ρ n := by
+    intro n h0 h2
+    rw [constructor_shape.1]; simp only [measEnv]
+    rw [if_neg h0, if_neg h2]
+  have rng := fgRange_ok c valid ρ (measEnv (VL c valid) ρ from_groove_wg.meas)
+    (by rw [mv _ (by decide) (by decide)]; exact hw0) (by rw [mv _ (by decide) (by decide)]; exact huw)
+    (by rw [mv _ (by decide) (by decide), mv _ (by decide) (by decide)]; exact hh) (by rw [mv _ (by decide) (by decide)]; exact hg)
+  have ovr := overwidth_rejected_constructor (VL c valid) ρ (measEnv (VL c valid) ρ from_groove_wg.meas) E m0 m2
+  rw [mv _ (by decide) (by decide)] at ovr
+  -- the clipped polygon of the constructor is the pass's
+  have eres : from_groove_wg.result.eval (VL c valid) ρ = clipStrip (ρ "width") (upper ρ (c .rollContour)) := by
+    rw [← two_code_paths_agree (VL c valid) ρ hc, two_result_is_clipStrip]
+  have eclip : (GT.clipRect fgPoly (.fin (.div (.neg (.var "width")) (.nat 2))) .ninf (.fin (.div (.var "width") (.nat 2))) .pinf).eval
+      (VL c valid) ρ = clipStrip (ρ "width") (upper ρ (c .rollContour)) := by
+    rw [← eres, constructor_shape.2.2]; rfl
+  by_cases hw : 1.01 * E < ρ "width"
+  · rw [two_roll_overwidth_rejected c valid ρ E h hw]
+    simp only [Prog.run, constructor_shape.2.1, runChecks, rng, ovr.mpr hw]
+    simp
+  · have nofire : fgOver.eval (VL c valid) ρ (measEnv (VL c valid) ρ from_groove_wg.meas) = false := by
+      cases hh' : fgOver.eval (VL c valid) ρ (measEnv (VL c valid) ρ from_groove_wg.meas)
+      · rfl
+      · exact absurd (ovr.mp hh') hw
+    cases hv : valid (clipStrip (ρ "width") (upper ρ (c .rollContour)))
+    · rw [two_roll_degenerate_rejected c valid ρ E h hw0 hv]
+      have hv' : (VL c valid).isValid (clipStrip (ρ "width") (upper ρ (c .rollContour))) = false := hv
+      simp only [Prog.run, constructor_shape.2.1, runChecks, rng, nofire, Cond.eval, eclip, hv']
+      simp
+    · rw [(two_roll_accepted c valid ρ E h hw0 (not_lt.mp hw) hv).1]
+      have hv' : (VL c valid).isValid (clipStrip (ρ "width") (upper ρ (c .rollContour))) = true := hv
+      simp only [Prog.run, constructor_shape.2.1, runChecks, rng, nofire, Cond.eval, eclip, hv', eres]
+      simp
+
 end run
+
+/-! ### non-vacuity: a concrete contour -/
+
+/-- a groove with faces on the axis: extent 4, usable part `|x| ≤ 1`, depth 1 -/
+def tri : List (Pt ℝ) := [⟨-2, 0⟩, ⟨-1, 0⟩, ⟨0, 1⟩, ⟨1, 0⟩, ⟨2, 0⟩]
+
+noncomputable def env2 : String → ℝ := fun n =>
+  if n = "gap" then 1 else if n = "width" then 3 else if n = "groove.usable_width" then 2 else if n = "groove.depth" then 1 else 0
+
+theorem tri_spans : Spans (upper env2 tri) 4 := by
+  refine ⟨by norm_num, ?_, ⟨⟨-2, 0 + 1 / 2⟩, ?_, by norm_num⟩, ⟨⟨2, 0 + 1 / 2⟩, ?_, by norm_num⟩⟩
+  · intro p hp
+    simp only [upper, tri, List.map_cons, List.map_nil, List.mem_cons, List.not_mem_nil, or_false] at hp
+    rcases hp with rfl | rfl | rfl | rfl | rfl <;> norm_num
+  · simp [upper, tri, env2]
+  · simp [upper, tri, env2]
+
+/-- prescribed width 3 (over-filled into the face padding, extent 4): accepted, exactly 3 wide -/
+example : measVL (clipStrip 3 (upper env2 tri)) .width = 3 := (clip_width 3 4 _ tri_spans (by norm_num) (by norm_num)).1
+
+/-- prescribed width 4.03 (within 1 % over the extent): accepted with the width of the extent -/
+example : measVL (clipStrip 4.03 (upper env2 tri)) .width = 4 := by
+  rw [clip_width_min 4.03 4 _ tri_spans (by norm_num)]; norm_num
+
+/-- prescribed width 5 (beyond the contour): `ValueError` -/
+example (valid : List (Pt ℝ) → Bool) :
+    two_cross_section.run (VL (fun _ => tri) valid) (fun n => if n = "width" then 5 else env2 n) = .raised "ValueError" := by
+  apply two_roll_overwidth_rejected _ _ _ 4
+  · have : upper (fun n => if n = "width" then 5 else env2 n) tri = upper env2 tri := by simp [upper, env2]
+    simpa [this] using tri_spans
+  · simp; norm_num
+
+/-- the hypotheses of `constructor_agrees_with_pass` are satisfiable -/
+example (valid : List (Pt ℝ) → Bool) :
+    from_groove_wg.run (VL (fun _ => tri) valid) env2 = two_cross_section.run (VL (fun _ => tri) valid) env2 :=
+  constructor_agrees_with_pass _ valid env2 rfl 4 tri_spans (by simp [env2]) (by simp [env2]) (by simp [env2]; norm_num) (by simp [env2])
+
+/-- a vertex inserted by the clip: the crossing of the face `(1, ½)–(2, ½)` with the border `x = 3/2` -/
+example : (⟨3 / 2, 1 / 2⟩ : Pt ℝ) ∈ clipStrip 3 (upper env2 tri) := by
+  rw [clipStrip_eq, mem_clipStripRing]
+  right
+  refine ⟨⟨1, 1 / 2⟩, ⟨2, 1 / 2⟩, ?_, ?_⟩
+  · apply segs_subset_closeRing
+    rw [mem_segs_append]
+    left
+    simp [upper, tri, env2, segsOf]
+  · rw [mem_crossings]
+    right
+    refine ⟨Or.inl ⟨by norm_num, by norm_num⟩, ?_⟩
+    ext <;> simp [crossAt]
+
+/-! ## D. three rolls -/
+
+theorem rot120_eq : (rotPt (120 : ℝ) : Pt ℝ → Pt ℝ) = rot120 := by
+  funext p
+  rw [rotPt_120]
+  rfl
+
+/-- the generated three-roll out cross-section is the triple (keep `y ≤ width/2`, close, turn by 120°) of the ring of the
+    pass's three contour lines -/
+theorem three_result_is_triple_clip (c : Src → List (Pt ℝ)) (valid : List (Pt ℝ) → Bool) (ρ : String → ℝ) :
+    three_cross_section.result.eval (VL c valid) ρ =
+      clipTurn (ρ "width" / 2) (clipTurn (ρ "width" / 2) (clipTurn (ρ "width" / 2)
+        (closeRing (three_lines.eval (VL c valid) ρ)))) := by
+  simp only [three_cross_section, cross_section3, out_cross_section3, GT.eval, Bnd.eval, Expr.eval, PyNum.nat_real]
+  simp only [VL, clipRectVL, clipExt, rot120_eq, clipTurn, Nat.cast_ofNat, Bool.false_eq_true, if_false, if_true]
+
+/-- **three-roll over-width test, for every interpretation**: the program raises exactly when
+    `(bounds[3] + centroid.y) · 2.02 < width`, measured on the cross-section it would return -/
+theorem three_roll_overwidth {G : Type} (S : Sig ℝ G) (ρ : String → ℝ) :
+    three_cross_section.run S ρ = .raised "ValueError" ↔
+      (S.measure (three_cross_section.result.eval S ρ) (.bound 3) +
+        S.measure (three_cross_section.result.eval S ρ) .centroidY) * 2.02 < ρ "width" := by
+  have e3 : measEnv S ρ three_cross_section.meas "cs.bounds[3]" = S.measure (three_cross_section.result.eval S ρ) (.bound 3) := by
+    rw [checks_shape.2.2.1]; simp only [measEnv, if_true]
+  have ey : measEnv S ρ three_cross_section.meas "cs.centroid.y" = S.measure (three_cross_section.result.eval S ρ) .centroidY := by
+    rw [checks_shape.2.2.1]; simp only [measEnv, if_true]; rw [if_neg (by decide)]
+  have ew : measEnv S ρ three_cross_section.meas "width" = ρ "width" := by
+    rw [checks_shape.2.2.1]; simp only [measEnv]; rw [if_neg (by decide), if_neg (by decide)]
+  have key := threeOver_iff S ρ (measEnv S ρ three_cross_section.meas)
+  rw [e3, ey, ew] at key
+  rw [← key]
+  simp only [Prog.run, checks_shape.2.2.2.1, runChecks]
+  cases threeOver.eval S ρ (measEnv S ρ three_cross_section.meas) <;> simp
+
+/-- **three rolls, width (upper bound)**: no vertex of the cross-section reaches further than `width/2` towards any of the
+    three gaps (directions 90°, 210°, 330°) — for every ring of contour lines -/
+theorem three_roll_clip_bounded (c : Src → List (Pt ℝ)) (valid : List (Pt ℝ) → Bool) (ρ : String → ℝ) :
+    ∀ q ∈ three_cross_section.result.eval (VL c valid) ρ,
+      reach90 q ≤ ρ "width" / 2 ∧ reach210 q ≤ ρ "width" / 2 ∧ reach330 q ≤ ρ "width" / 2 := by
+  rw [three_result_is_triple_clip]
+  exact clipTurn3_bounded _ _
+
+/-- every vertex of the opening that respects the three bounds is a vertex of the cross-section -/
+theorem three_roll_clip_keeps (c : Src → List (Pt ℝ)) (valid : List (Pt ℝ) → Bool) (ρ : String → ℝ) (p : Pt ℝ)
+    (hp : p ∈ three_lines.eval (VL c valid) ρ)
+    (h90 : reach90 p ≤ ρ "width" / 2) (h210 : reach210 p ≤ ρ "width" / 2) (h330 : reach330 p ≤ ρ "width" / 2) :
+    p ∈ three_cross_section.result.eval (VL c valid) ρ := by
+  rw [three_result_is_triple_clip]
+  exact clipTurn3_keeps _ _ p ((mem_closeRing _ p).mpr hp) h90 h210 h330
+
+/-- the full symmetry statement for three rolls: the vertex set of the cross-section is invariant under the 120° turn -/
+def ThreeRollSymmetric (cs : List (Pt ℝ)) : Prop := ∀ q, q ∈ cs ↔ rot120 q ∈ cs
+
+/-- what is carried of it (partial): if the opening's vertex set is invariant under the 120° turn (C09:
+    `three_roll_120`), then so is the set of its vertices that survive in the cross-section, and the three bounds of
+    `three_roll_clip_bounded` are permuted by the turn.  The vertices INSERTED by the three clips are not covered
+    (their symmetry is checked on the real cross-section by the oracle). -/
+theorem three_roll_symmetric_partial (c : Src → List (Pt ℝ)) (valid : List (Pt ℝ) → Bool) (ρ : String → ℝ)
+    (hsym : ∀ p ∈ three_lines.eval (VL c valid) ρ, rot120 p ∈ three_lines.eval (VL c valid) ρ)
+    (p : Pt ℝ) (hp : p ∈ three_lines.eval (VL c valid) ρ)
+    (h90 : reach90 p ≤ ρ "width" / 2) (h210 : reach210 p ≤ ρ "width" / 2) (h330 : reach330 p ≤ ρ "width" / 2) :
+    p ∈ three_cross_section.result.eval (VL c valid) ρ ∧ rot120 p ∈ three_cross_section.result.eval (VL c valid) ρ := by
+  refine ⟨three_roll_clip_keeps c valid ρ p hp h90 h210 h330, ?_⟩
+  apply three_roll_clip_keeps c valid ρ (rot120 p) (hsym p hp)
+  · rw [reach90_rot]; exact h330
+  · rw [reach210_rot]; exact h90
+  · rw [reach330_rot]; exact h210
+
+/-- the turn by 120° has order three, so after the three rounds the cross-section is back in the frame of the pass -/
+theorem rotate_order_three (p : Pt ℝ) : rot120 (rot120 (rot120 p)) = p := rot120_three p
+
+/-- non-vacuity: an equilateral opening (vertices at distance 2 towards 90°, 210°, 330°), prescribed width 2:
+    the vertex `(0, 2)` is cut off, and the bound is attained -/
+example : ¬ (reach90 (⟨0, 2⟩ : Pt ℝ) ≤ (2 : ℝ) / 2) := by simp [reach90]
+example : reach210 (⟨0, 1⟩ : Pt ℝ) ≤ (2 : ℝ) / 2 ∧ reach330 (⟨0, 1⟩ : Pt ℝ) ≤ (2 : ℝ) / 2 ∧ reach90 (⟨0, 1⟩ : Pt ℝ) ≤ (2 : ℝ) / 2 := by
+  simp [reach90, reach210, reach330]; norm_num
+
+example : (⟨0, 1⟩ : Pt ℝ) ∈ clipTurn 1 (clipTurn 1 (clipTurn 1 [⟨0, 1⟩, ⟨-1, -1⟩, ⟨1, -1⟩, ⟨0, 1⟩])) := by
+  apply clipTurn3_keeps
+  · simp
+  · simp [reach90]
+  · simp [reach210]; norm_num
+  · simp [reach330]; norm_num
 
 end C08
